@@ -170,7 +170,7 @@ def _col(v, n):
 
 def run_dao(rng, img, kind):
     from photutils.detection import DAOStarFinder
-    p = dict(threshold=rng.choice([0.0, 1.0, 5.0]), fwhm=rng.choice([1.5, 2.0, 3.0, 4.0, 5.0]),
+    p = dict(threshold=rng.choice([0.0, 1.0, 5.0]), fwhm=rng.choice([1.5, 2.0, 3.0, 4.0, 5.0, 6.0]),
              ratio=rng.choice([1.0, 1.0, 0.7, 0.5]), theta=rng.choice([0.0, 0.0, 30.0, 90.0]),
              sigma_radius=rng.choice([1.5, 1.5, 1.0]), exclude_border=rng.random() < 0.3, xy=None)
     ny, nx = img.shape
@@ -320,10 +320,12 @@ def run_statistics_correspondence(ctx, n_cases):
     if not terms:
         return out
     bad = ctx.coq_eval_cases(IMPORTS, 'check_case', terms, case_type='case', tag='c14d')
-    amb = ctx.coq_eval_cases(IMPORTS, 'case_unambiguous',
-                             [t for t, m in zip(terms, meta) if m['finder'] == 'DAO'], case_type='case',
-                             tag='c14d_amb')
+    dao_idx = [i for i, m in enumerate(meta) if m['finder'] == 'DAO']
+    amb = ctx.coq_eval_cases(IMPORTS, 'case_unambiguous', [terms[i] for i in dao_idx], case_type='case',
+                             tag='c14d_amb') if dao_idx else []
     out['rounding_decided_cases'] = len(amb)
+    for j in amb:
+        ctx.stat('statistics_DAO', 'rounding_decided:scene=' + meta[dao_idx[j]]['scene'])
     out['disagreements'] = len(bad)
     for i in bad[:10]:
         try:
